@@ -121,6 +121,8 @@ def main():
         "y2038": (2147483648, 0), "y2106": (4294967296, 5), "y9999": (253402300799, 999999900),
         "now_ish": (1790000000, 123456789), "max_tick": (1833029933770, 955161500),
         "beyond": (1833029933771, 0), "far": (4000000000000, 0),
+        # more than 2^64 ticks away from 1970 in either direction (a tick count that wraps when narrowed to 64 bits)
+        "far_past": (-4000000000000, 0), "far_2_64": (1844674407371, 0), "past_2_64": (-1844674407371, 500),
     }
     vals = {
         "time": {k: {"secs": str(s), "nanos": n, "q": q(s, n)} for k, (s, n) in times.items()},
